@@ -268,7 +268,8 @@ def run_monitors(cfg, items, endl, props=None):
                 # (tlru/utlru with an expired entry still resident: allow::update over it may go either way — skip)
                 if (kind in ("ut_map", "ut_set") or pre["size"] + len(newk) <= cfg["cap"]) and \
                         not (kind in ("tlru", "utlru") and pre["size"] != len(pre_found)) and \
-                        not (kind in TTLK and any(ttl_of(t_) == 0 for (t_, _, _) in it["kvs"]) and kind != "tlru"):
+                        not (kind in TTLK and any(ttl_of(t_) == 0 for (t_, _, _) in it["kvs"])):      # a TTL-0 write leaves an
+                    # expired resident entry behind, over which a later allow::update of the same call may go either way
                     present, exp_n = set(pre_found), 0
                     a_ins, a_upd = bool(it["a"] & 1), bool(it["a"] & 2)
                     for (t_, k, _) in it["kvs"]:
